@@ -1,1 +1,547 @@
-(* placeholder: proofs are being written *)
+(* Proofs for C04: composition arithmetic is exact pointwise integer arithmetic. *)
+From Coq Require Import List ZArith NArith Bool Arith String Permutation Lia.
+From CE Require Import Num Str TableTypes TableModel Comp ESpec CompOps CompSpec.
+Import ListNotations.
+
+(* ------------------------------------------------------------------------------------------ *)
+(* key equality *)
+Lemma str_eqb_eq : forall a b, str_eqb a b = true <-> a = b.
+Proof.
+  intros a b. unfold str_eqb. destruct (list_eq_dec N.eq_dec a b) as [e|ne].
+  - split; intros _; [exact e | reflexivity].
+  - split; intros H; [discriminate H | contradiction].
+Qed.
+
+Lemma key_eqb_eq : forall a b, key_eqb a b = true <-> a = b.
+Proof.
+  intros [a1 a2] [b1 b2]. unfold key_eqb. cbn [fst snd].
+  rewrite andb_true_iff, str_eqb_eq, N.eqb_eq. split.
+  - intros [H1 H2]. subst. reflexivity.
+  - intros H. inversion H. split; reflexivity.
+Qed.
+
+Lemma key_eqb_refl : forall k, key_eqb k k = true.
+Proof. intros k. apply key_eqb_eq. reflexivity. Qed.
+
+Lemma key_eqb_neq : forall a b, key_eqb a b = false <-> a <> b.
+Proof.
+  intros a b. split.
+  - intros H E. apply key_eqb_eq in E. rewrite E in H. discriminate H.
+  - intros H. destruct (key_eqb a b) eqn:E; [|reflexivity]. apply key_eqb_eq in E. contradiction.
+Qed.
+
+Lemma key_eqb_sym : forall a b, key_eqb a b = key_eqb b a.
+Proof.
+  intros a b. destruct (key_eqb a b) eqn:E.
+  - apply key_eqb_eq in E. subst. symmetry. apply key_eqb_refl.
+  - apply key_eqb_neq in E. symmetry. apply key_eqb_neq. intros H. apply E. symmetry. exact H.
+Qed.
+
+Lemma key_eq_dec : forall a b : key, {a = b} + {a <> b}.
+Proof.
+  intros a b. destruct (key_eqb a b) eqn:E.
+  - left. apply key_eqb_eq. exact E.
+  - right. apply key_eqb_neq. exact E.
+Qed.
+
+(* ------------------------------------------------------------------------------------------ *)
+(* set / inc *)
+Lemma get_set : forall l k n k', e_get k' (e_set k n l) = if key_eqb k' k then n else e_get k' l.
+Proof.
+  intros l k n k'. induction l as [|[k0 v] r IH].
+  - cbn [e_set e_get]. reflexivity.
+  - cbn [e_set e_get]. destruct (key_eqb k k0) eqn:E.
+    + apply key_eqb_eq in E. subst k0. cbn [e_get].
+      destruct (key_eqb k' k); reflexivity.
+    + cbn [e_get]. rewrite IH. destruct (key_eqb k' k0) eqn:E0; [|reflexivity].
+      destruct (key_eqb k' k) eqn:E1; [|reflexivity].
+      apply key_eqb_eq in E0. apply key_eqb_eq in E1. subst. rewrite key_eqb_refl in E. discriminate E.
+Qed.
+
+Lemma get_inc : forall l k n k',
+  e_get k' (e_inc k n l) = if key_eqb k' k then (e_get k l + n)%Z else e_get k' l.
+Proof. intros l k n k'. unfold e_inc. apply get_set. Qed.
+
+Lemma mem_set : forall l k n k', e_mem k' (e_set k n l) = key_eqb k' k || e_mem k' l.
+Proof.
+  intros l k n k'. induction l as [|[k0 v] r IH].
+  - cbn [e_set e_mem]. reflexivity.
+  - cbn [e_set e_mem]. destruct (key_eqb k k0) eqn:E.
+    + apply key_eqb_eq in E. subst k0. cbn [e_mem].
+      destruct (key_eqb k' k); reflexivity.
+    + cbn [e_mem]. rewrite IH. destruct (key_eqb k' k0), (key_eqb k' k); reflexivity.
+Qed.
+
+Lemma mem_inc : forall l k n k', e_mem k' (e_inc k n l) = key_eqb k' k || e_mem k' l.
+Proof. intros. unfold e_inc. apply mem_set. Qed.
+
+Lemma nodup_set : forall l k n, nodup_keys l = true -> nodup_keys (e_set k n l) = true.
+Proof.
+  intros l k n. induction l as [|[k0 v] r IH]; intros H.
+  - reflexivity.
+  - cbn [nodup_keys] in H. apply andb_true_iff in H. destruct H as [H1 H2].
+    cbn [e_set]. destruct (key_eqb k k0) eqn:E.
+    + cbn [nodup_keys]. rewrite H1, H2. reflexivity.
+    + cbn [nodup_keys]. rewrite mem_set, (key_eqb_sym k0 k), E. cbn [orb].
+      rewrite H1, (IH H2). reflexivity.
+Qed.
+
+Lemma nodup_inc : forall l k n, nodup_keys l = true -> nodup_keys (e_inc k n l) = true.
+Proof. intros. unfold e_inc. apply nodup_set. assumption. Qed.
+
+Lemma get_notmem : forall k l, e_mem k l = false -> e_get k l = 0%Z.
+Proof.
+  intros k l. induction l as [|[k0 v] r IH]; intros H.
+  - reflexivity.
+  - cbn [e_mem] in H. apply orb_false_iff in H. destruct H as [H1 H2].
+    cbn [e_get]. rewrite H1. apply IH. exact H2.
+Qed.
+
+(* ------------------------------------------------------------------------------------------ *)
+(* add / sub / mul / neg *)
+Lemma get_add : forall a b k, nodup_keys b = true -> e_get k (e_add a b) = (e_get k a + e_get k b)%Z.
+Proof.
+  intros a b. revert a. induction b as [|[k0 v] r IH]; intros a k H.
+  - cbn [e_add fold_left e_get]. lia.
+  - cbn [nodup_keys] in H. apply andb_true_iff in H. destruct H as [H1 H2].
+    apply negb_true_iff in H1.
+    unfold e_add in *. cbn [fold_left fst snd]. rewrite (IH _ k H2), get_inc.
+    cbn [e_get]. destruct (key_eqb k k0) eqn:E.
+    + apply key_eqb_eq in E. subst k0. rewrite (get_notmem _ _ H1). lia.
+    + reflexivity.
+Qed.
+
+Lemma get_sub : forall a b k, nodup_keys b = true -> e_get k (e_sub a b) = (e_get k a - e_get k b)%Z.
+Proof.
+  intros a b. revert a. induction b as [|[k0 v] r IH]; intros a k H.
+  - cbn [e_sub fold_left e_get]. lia.
+  - cbn [nodup_keys] in H. apply andb_true_iff in H. destruct H as [H1 H2].
+    apply negb_true_iff in H1.
+    unfold e_sub in *. cbn [fold_left fst snd]. rewrite (IH _ k H2), get_inc.
+    cbn [e_get]. destruct (key_eqb k k0) eqn:E.
+    + apply key_eqb_eq in E. subst k0. rewrite (get_notmem _ _ H1). lia.
+    + reflexivity.
+Qed.
+
+(* a map over the counts that leaves keys alone *)
+Lemma get_mapv : forall (g : Z -> Z) a k,
+  e_get k (map (fun kv => (fst kv, g (snd kv))) a) = if e_mem k a then g (e_get k a) else 0%Z.
+Proof.
+  intros g a k. induction a as [|[k0 v] r IH].
+  - reflexivity.
+  - cbn [map e_get e_mem fst snd]. destruct (key_eqb k k0); [reflexivity|]. cbn [orb]. exact IH.
+Qed.
+
+Lemma mem_mapv : forall (g : Z -> Z) a k,
+  e_mem k (map (fun kv => (fst kv, g (snd kv))) a) = e_mem k a.
+Proof.
+  intros g a k. induction a as [|[k0 v] r IH].
+  - reflexivity.
+  - cbn [map e_mem fst snd]. rewrite IH. reflexivity.
+Qed.
+
+Lemma nodup_mapv : forall (g : Z -> Z) a,
+  nodup_keys (map (fun kv => (fst kv, g (snd kv))) a) = nodup_keys a.
+Proof.
+  intros g a. induction a as [|[k0 v] r IH].
+  - reflexivity.
+  - cbn [map nodup_keys fst snd]. rewrite mem_mapv, IH. reflexivity.
+Qed.
+
+Lemma get_mul : forall a n k, e_get k (e_mul a n) = (e_get k a * n)%Z.
+Proof.
+  intros a n k. unfold e_mul. rewrite (get_mapv (fun v => (v * n)%Z)).
+  destruct (e_mem k a) eqn:E; [reflexivity|]. rewrite (get_notmem _ _ E). reflexivity.
+Qed.
+
+Lemma get_neg : forall a k, e_get k (e_neg a) = (- e_get k a)%Z.
+Proof. intros a k. unfold e_neg. rewrite get_mul. lia. Qed.
+
+Lemma mem_mul : forall a n k, e_mem k (e_mul a n) = e_mem k a.
+Proof. intros a n k. unfold e_mul. apply (mem_mapv (fun v => (v * n)%Z)). Qed.
+
+Lemma nodup_mul : forall a n, nodup_keys (e_mul a n) = nodup_keys a.
+Proof. intros a n. unfold e_mul. apply (nodup_mapv (fun v => (v * n)%Z)). Qed.
+
+Lemma mem_add : forall a b k, e_mem k (e_add a b) = e_mem k a || e_mem k b.
+Proof.
+  intros a b. revert a. induction b as [|[k0 v] r IH]; intros a k.
+  - cbn [e_add fold_left e_mem]. rewrite orb_false_r. reflexivity.
+  - unfold e_add in *. cbn [fold_left fst snd]. rewrite IH, mem_inc. cbn [e_mem].
+    destruct (key_eqb k k0), (e_mem k a); reflexivity.
+Qed.
+
+Lemma mem_sub : forall a b k, e_mem k (e_sub a b) = e_mem k a || e_mem k b.
+Proof.
+  intros a b. revert a. induction b as [|[k0 v] r IH]; intros a k.
+  - cbn [e_sub fold_left e_mem]. rewrite orb_false_r. reflexivity.
+  - unfold e_sub in *. cbn [fold_left fst snd]. rewrite IH, mem_inc. cbn [e_mem].
+    destruct (key_eqb k k0), (e_mem k a); reflexivity.
+Qed.
+
+Lemma nodup_add : forall a b, nodup_keys a = true -> nodup_keys (e_add a b) = true.
+Proof.
+  intros a b. revert a. induction b as [|[k0 v] r IH]; intros a H.
+  - exact H.
+  - unfold e_add in *. cbn [fold_left]. apply IH. apply nodup_inc. exact H.
+Qed.
+
+Lemma nodup_sub : forall a b, nodup_keys a = true -> nodup_keys (e_sub a b) = true.
+Proof.
+  intros a b. revert a. induction b as [|[k0 v] r IH]; intros a H.
+  - exact H.
+  - unfold e_sub in *. cbn [fold_left]. apply IH. apply nodup_inc. exact H.
+Qed.
+
+Lemma nodup_copy_from : forall b acc, nodup_keys acc = true ->
+  nodup_keys (fold_left (fun acc kv => e_set (fst kv) (snd kv) acc) b acc) = true.
+Proof.
+  intros b. induction b as [|[k0 v] r IH]; intros acc H.
+  - exact H.
+  - cbn [fold_left]. apply IH. apply nodup_set. exact H.
+Qed.
+
+Lemma nodup_copy : forall b, nodup_keys (e_copy b) = true.
+Proof. intros b. unfold e_copy. apply nodup_copy_from. reflexivity. Qed.
+
+Lemma nodup_collect : forall l, nodup_keys (e_collect l) = true.
+Proof. intros l. unfold e_collect. apply nodup_add. reflexivity. Qed.
+
+(* ------------------------------------------------------------------------------------------ *)
+(* constructors *)
+Lemma fold_add_acc : forall l acc, fold_left Z.add l acc = (acc + fold_left Z.add l 0)%Z.
+Proof.
+  intros l. induction l as [|x r IH]; intros acc.
+  - cbn [fold_left]. lia.
+  - cbn [fold_left]. rewrite (IH (acc + x)%Z), (IH (0 + x)%Z). lia.
+Qed.
+
+Lemma listed_cons : forall k k0 v r,
+  listed k ((k0, v) :: r) = if key_eqb k k0 then (v + listed k r)%Z else listed k r.
+Proof.
+  intros k k0 v r. unfold listed. cbn [filter fst]. destruct (key_eqb k k0); [|reflexivity].
+  cbn [map snd fold_left]. rewrite fold_add_acc. lia.
+Qed.
+
+Lemma get_add_listed : forall l a k, e_get k (e_add a l) = (e_get k a + listed k l)%Z.
+Proof.
+  intros l. induction l as [|[k0 v] r IH]; intros a k.
+  - cbn [e_add fold_left]. unfold listed. cbn. lia.
+  - rewrite listed_cons. unfold e_add in *. cbn [fold_left fst snd]. rewrite IH, get_inc.
+    destruct (key_eqb k k0) eqn:E; [|reflexivity].
+    apply key_eqb_eq in E. subst k0. lia.
+Qed.
+
+Lemma get_collect : forall l k, e_get k (e_collect l) = listed k l /\ nodup_keys (e_collect l) = true.
+Proof.
+  intros l k. split.
+  - unfold e_collect. rewrite get_add_listed. cbn [e_get]. lia.
+  - apply nodup_collect.
+Qed.
+
+Lemma nodup_invariant : forall a b k n,
+  nodup_keys a = true ->
+  nodup_keys (e_set k n a) = true /\ nodup_keys (e_inc k n a) = true /\ nodup_keys (e_add a b) = true
+  /\ nodup_keys (e_sub a b) = true /\ nodup_keys (e_mul a n) = true /\ nodup_keys (e_neg a) = true
+  /\ nodup_keys (e_copy b) = true.
+Proof.
+  intros a b k n H. repeat split.
+  - apply nodup_set. exact H.
+  - apply nodup_inc. exact H.
+  - apply nodup_add. exact H.
+  - apply nodup_sub. exact H.
+  - rewrite nodup_mul. exact H.
+  - unfold e_neg. rewrite nodup_mul. exact H.
+  - apply nodup_copy.
+Qed.
+
+(* ------------------------------------------------------------------------------------------ *)
+(* entries as a set of pairs *)
+Lemma mem_In : forall k l, e_mem k l = true <-> exists v, In (k, v) l.
+Proof.
+  intros k l. induction l as [|[k0 v0] r IH].
+  - cbn [e_mem In]. split; [discriminate | intros [v []]].
+  - cbn [e_mem In]. rewrite orb_true_iff, IH, key_eqb_eq. split.
+    + intros [E | [v Hv]].
+      * subst k0. exists v0. left. reflexivity.
+      * exists v. right. exact Hv.
+    + intros [v [E | Hv]].
+      * inversion E. left. reflexivity.
+      * right. exists v. exact Hv.
+Qed.
+
+Lemma mem_In_keys : forall k l, e_mem k l = true <-> In k (map fst l).
+Proof.
+  intros k l. rewrite mem_In, in_map_iff. split.
+  - intros [v Hv]. exists (k, v). split; [reflexivity | exact Hv].
+  - intros [[k1 v] [E Hv]]. cbn [fst] in E. subst k1. exists v. exact Hv.
+Qed.
+
+Lemma nodup_keys_NoDup : forall l, nodup_keys l = true <-> NoDup (map fst l).
+Proof.
+  intros l. induction l as [|[k0 v0] r IH].
+  - cbn. split; [intros _; constructor | reflexivity].
+  - cbn [nodup_keys map fst]. rewrite andb_true_iff, negb_true_iff, IH. split.
+    + intros [H1 H2]. constructor; [|exact H2].
+      intros Hin. apply mem_In_keys in Hin. rewrite Hin in H1. discriminate H1.
+    + intros H. inversion H as [|x l' Hn Hd]. subst. split; [|exact Hd].
+      destruct (e_mem k0 r) eqn:E; [|reflexivity]. apply mem_In_keys in E. contradiction.
+Qed.
+
+Lemma get_In : forall k v l, nodup_keys l = true -> In (k, v) l -> e_get k l = v.
+Proof.
+  intros k v l. induction l as [|[k0 v0] r IH]; intros Hn Hin.
+  - destruct Hin.
+  - cbn [nodup_keys] in Hn. apply andb_true_iff in Hn. destruct Hn as [H1 H2].
+    apply negb_true_iff in H1. cbn [e_get]. destruct Hin as [E | Hin].
+    + inversion E. subst. rewrite key_eqb_refl. reflexivity.
+    + destruct (key_eqb k k0) eqn:E.
+      * apply key_eqb_eq in E. subst k0.
+        assert (Hm : e_mem k r = true) by (apply mem_In; exists v; exact Hin).
+        rewrite Hm in H1. discriminate H1.
+      * apply IH; assumption.
+Qed.
+
+Lemma In_get : forall k l, e_mem k l = true -> In (k, e_get k l) l.
+Proof.
+  intros k l. induction l as [|[k0 v0] r IH]; intros H.
+  - discriminate H.
+  - cbn [e_mem] in H. cbn [e_get]. destruct (key_eqb k k0) eqn:E.
+    + apply key_eqb_eq in E. subst k0. left. reflexivity.
+    + cbn [orb] in H. right. apply IH. exact H.
+Qed.
+
+Lemma nodup_perm : forall l l', Permutation l l' -> nodup_keys l = true -> nodup_keys l' = true.
+Proof.
+  intros l l' P H. apply nodup_keys_NoDup. apply nodup_keys_NoDup in H.
+  apply (Permutation_NoDup (l := map fst l)); [|exact H]. apply Permutation_map. exact P.
+Qed.
+
+Lemma mem_perm : forall k l l', Permutation l l' -> e_mem k l = e_mem k l'.
+Proof.
+  intros k l l' P. destruct (e_mem k l) eqn:E; symmetry.
+  - apply mem_In in E. destruct E as [v Hv]. apply mem_In. exists v.
+    apply (Permutation_in _ P). exact Hv.
+  - destruct (e_mem k l') eqn:E'; [|reflexivity].
+    apply mem_In in E'. destruct E' as [v Hv].
+    assert (Hm : e_mem k l = true).
+    { apply mem_In. exists v. apply (Permutation_in _ (Permutation_sym P)). exact Hv. }
+    rewrite Hm in E. discriminate E.
+Qed.
+
+Lemma get_perm : forall k l l', Permutation l l' -> nodup_keys l = true -> e_get k l = e_get k l'.
+Proof.
+  intros k l l' P H. destruct (e_mem k l) eqn:E.
+  - symmetry. apply get_In.
+    + apply (nodup_perm _ _ P H).
+    + apply (Permutation_in _ P). apply In_get. exact E.
+  - rewrite (get_notmem _ _ E). rewrite (mem_perm k _ _ P) in E. rewrite (get_notmem _ _ E). reflexivity.
+Qed.
+
+(* ------------------------------------------------------------------------------------------ *)
+(* the register machine *)
+Lemma forms_agree {F : Type} (N : Num F) (tbl : list (string * elem)) (shuffle : ents -> ents) :
+  forall f a b (q1 q2 q3 q4 : nat) n,
+    apply N tbl shuffle f (OAddRef q1) a b = apply N tbl shuffle f (OAddVal q2) a b
+    /\ apply N tbl shuffle f (OAddRef q1) a b = apply N tbl shuffle f (OAddAssign q3) a b
+    /\ apply N tbl shuffle f (OAddRef q1) a b = apply N tbl shuffle f (OAddAssignMut q4) a b
+    /\ apply N tbl shuffle f (OSubRef q1) a b = apply N tbl shuffle f (OSubVal q2) a b
+    /\ apply N tbl shuffle f (OSubRef q1) a b = apply N tbl shuffle f (OSubAssign q3) a b
+    /\ apply N tbl shuffle f (OSubRef q1) a b = apply N tbl shuffle f (OSubAssignMut q4) a b
+    /\ apply N tbl shuffle f (OMulRef n) a b = apply N tbl shuffle f (OMulVal n) a b
+    /\ apply N tbl shuffle f (OMulRef n) a b = apply N tbl shuffle f (OMulAssign n) a b
+    /\ apply N tbl shuffle f (OMulRef n) a b = apply N tbl shuffle f (OMulAssignMut n) a b
+    /\ apply N tbl shuffle f ONeg a b = apply N tbl shuffle f ONegRef a b.
+Proof. intros. repeat split. Qed.
+
+Lemma nth_error_set_nth : forall {A} (l : list A) r q x, q <> r -> nth_error (set_nth r x l) q = nth_error l q.
+Proof.
+  intros A l. induction l as [|y t IH]; intros r q x H.
+  - destruct r; reflexivity.
+  - destruct r as [|r'].
+    + destruct q as [|q']; [contradiction|]. reflexivity.
+    + destruct q as [|q']; [reflexivity|]. cbn [set_nth nth_error]. apply IH. lia.
+Qed.
+
+Lemma step_regs {F : Type} (N : Num F) (tbl : list (string * elem)) (shuffle : ents -> ents) :
+  forall regs r o, exists f' c, fst (step N tbl shuffle regs (r, o)) = set_nth r (mkReg f' c) regs.
+Proof.
+  intros regs r o. unfold step.
+  destruct (apply N tbl shuffle _ o _ _) as [c out].
+  eexists. eexists. cbn [fst]. reflexivity.
+Qed.
+
+Lemma operands_untouched {F : Type} (N : Num F) (tbl : list (string * elem)) (shuffle : ents -> ents) :
+  forall regs r o q,
+    q <> r -> nth_error (fst (step N tbl shuffle regs (r, o))) q = nth_error regs q.
+Proof.
+  intros regs r o q H. destruct (step_regs N tbl shuffle regs r o) as [f' [c E]].
+  rewrite E. apply nth_error_set_nth. exact H.
+Qed.
+
+Section Machine.
+  Context {F : Type} (N : Num F).
+  Variable tbl : list (string * elem).
+  Variable shuffle : ents -> ents.
+  Hypothesis shuffle_perm : forall l, Permutation (shuffle l) l.
+
+  Lemma sh_perm : forall f l, Permutation (sh shuffle f l) l.
+  Proof. intros f l. unfold sh. destruct (is_map f); [apply shuffle_perm | apply Permutation_refl]. Qed.
+
+  Lemma nodup_sh : forall f l, nodup_keys l = true -> nodup_keys (sh shuffle f l) = true.
+  Proof. intros f l H. apply (nodup_perm l); [apply Permutation_sym, sh_perm | exact H]. Qed.
+
+  Lemma get_sh : forall f l k, nodup_keys l = true -> e_get k (sh shuffle f l) = e_get k l.
+  Proof. intros f l k H. symmetry. apply get_perm; [apply Permutation_sym, sh_perm | exact H]. Qed.
+
+  Lemma mem_sh : forall f l k, e_mem k (sh shuffle f l) = e_mem k l.
+  Proof. intros f l k. apply mem_perm. apply sh_perm. Qed.
+
+  Lemma apply_pointwise : forall f (a b : comp F) (q : nat) n k,
+    nodup_keys (c_ents a) = true -> nodup_keys (c_ents b) = true ->
+    e_get k (c_ents (fst (apply N tbl shuffle f (OAddRef q) a b))) = (e_get k (c_ents a) + e_get k (c_ents b))%Z
+    /\ e_get k (c_ents (fst (apply N tbl shuffle f (OSubRef q) a b))) = (e_get k (c_ents a) - e_get k (c_ents b))%Z
+    /\ e_get k (c_ents (fst (apply N tbl shuffle f (OMulRef n) a b))) = (e_get k (c_ents a) * n)%Z
+    /\ e_get k (c_ents (fst (apply N tbl shuffle f ONeg a b))) = (- e_get k (c_ents a))%Z.
+  Proof.
+    intros f a b q n k Ha Hb. cbn [apply fst c_ents]. repeat split.
+    - unfold bin. destruct (c_ents b) as [|x r] eqn:Eb.
+      + cbn [e_get]. lia.
+      + unfold dirty. cbn [c_ents]. rewrite get_sh by (apply nodup_add; exact Ha).
+        apply get_add. exact Hb.
+    - unfold bin. destruct (c_ents b) as [|x r] eqn:Eb.
+      + cbn [e_get]. lia.
+      + unfold dirty. cbn [c_ents]. rewrite get_sh by (apply nodup_sub; exact Ha).
+        apply get_sub. exact Hb.
+    - apply get_mul.
+    - apply get_neg.
+  Qed.
+
+  (* every operation keeps the keys of its target distinct *)
+  Lemma nodup_dirty : forall f l, nodup_keys l = true -> nodup_keys (c_ents (dirty (F:=F) shuffle f l)) = true.
+  Proof. intros f l H. unfold dirty. cbn [c_ents]. apply nodup_sh. exact H. Qed.
+
+  Lemma nodup_bin : forall f g (a b : comp F),
+    (forall x y, nodup_keys x = true -> nodup_keys (g x y) = true) ->
+    nodup_keys (c_ents a) = true -> nodup_keys (c_ents (bin shuffle f g a b)) = true.
+  Proof.
+    intros f g a b Hg Ha. unfold bin. destruct (c_ents b); [exact Ha|].
+    apply nodup_dirty. apply Hg. exact Ha.
+  Qed.
+
+  Lemma apply_nodup : forall f o (a b : comp F),
+    nodup_keys (c_ents a) = true -> nodup_keys (c_ents b) = true ->
+    nodup_keys (c_ents (fst (apply N tbl shuffle f o a b))) = true.
+  Proof.
+    intros f o a b Ha Hb.
+    assert (Hset : forall k n, nodup_keys (c_ents (dirty (F:=F) shuffle f (e_set k n (c_ents a)))) = true).
+    { intros. apply nodup_dirty, nodup_set, Ha. }
+    assert (Hinc : forall k n, nodup_keys (c_ents (dirty (F:=F) shuffle f (e_inc k n (c_ents a)))) = true).
+    { intros. apply nodup_dirty, nodup_inc, Ha. }
+    destruct o; cbn [apply].
+    - apply Hset.
+    - apply Hinc.
+    - apply Hset.
+    - apply Hinc.
+    - destruct (espec_parse tbl s) as [k0| |]; cbn [fst c_ents]; [apply Hset | exact Ha | exact Ha].
+    - destruct f.
+      + destruct (espec_parse tbl s) as [k0| |]; cbn [fst c_ents]; [apply Hinc | exact Ha | exact Ha].
+      + destruct (plain_key tbl s) as [k0|].
+        * destruct (e_mem k0 (c_ents a)); [apply Hinc|].
+          destruct (espec_parse tbl s) as [k1| |]; cbn [fst c_ents]; [apply Hinc | exact Ha | exact Ha].
+        * destruct (espec_parse tbl s) as [k1| |]; cbn [fst c_ents]; [apply Hinc | exact Ha | exact Ha].
+      + destruct (espec_parse tbl s) as [k0| |]; cbn [fst c_ents]; [apply Hinc | exact Ha | exact Ha].
+      + destruct (plain_key tbl s) as [k0|].
+        * destruct (e_mem k0 (c_ents a)); [apply Hinc|].
+          destruct (espec_parse tbl s) as [k1| |]; cbn [fst c_ents]; [apply Hinc | exact Ha | exact Ha].
+        * destruct (espec_parse tbl s) as [k1| |]; cbn [fst c_ents]; [apply Hinc | exact Ha | exact Ha].
+    - destruct f; cbn [fst]; try exact Ha.
+      destruct (plain_key tbl s) as [k0|]; [|exact Ha].
+      destruct (e_mem k0 (c_ents a)); cbn [fst c_ents]; [apply nodup_set, Ha | exact Ha].
+    - cbn [fst]. apply nodup_bin; [intros; apply nodup_add; assumption | exact Ha].
+    - cbn [fst]. apply nodup_bin; [intros; apply nodup_add; assumption | exact Ha].
+    - cbn [fst]. apply nodup_bin; [intros; apply nodup_add; assumption | exact Ha].
+    - cbn [fst]. apply nodup_bin; [intros; apply nodup_add; assumption | exact Ha].
+    - cbn [fst]. apply nodup_bin; [intros; apply nodup_sub; assumption | exact Ha].
+    - cbn [fst]. apply nodup_bin; [intros; apply nodup_sub; assumption | exact Ha].
+    - cbn [fst]. apply nodup_bin; [intros; apply nodup_sub; assumption | exact Ha].
+    - cbn [fst]. apply nodup_bin; [intros; apply nodup_sub; assumption | exact Ha].
+    - cbn [fst c_ents]. rewrite nodup_mul. exact Ha.
+    - cbn [fst c_ents]. rewrite nodup_mul. exact Ha.
+    - cbn [fst c_ents]. rewrite nodup_mul. exact Ha.
+    - cbn [fst c_ents]. rewrite nodup_mul. exact Ha.
+    - cbn [fst c_ents]. unfold e_neg. rewrite nodup_mul. exact Ha.
+    - cbn [fst c_ents]. unfold e_neg. rewrite nodup_mul. exact Ha.
+    - cbn [fst c_ents]. rewrite (nodup_mapv (fun v => (v * a0 + b0)%Z)). exact Ha.
+    - cbn [fst]. exact Hb.
+    - destruct f; cbn [fst]; try exact Ha; apply nodup_dirty, nodup_copy.
+    - destruct f; cbn [fst c_ents]; try exact Ha; try apply nodup_copy; apply nodup_dirty, nodup_copy.
+    - cbn [fst]. apply nodup_dirty, nodup_collect.
+    - cbn [fst]. unfold c_fmass. destruct (c_cache a); [exact Ha|].
+      destruct (calc_mass N tbl (c_ents a)); cbn [fst c_ents]; exact Ha.
+    - cbn [fst]. exact Ha.
+  Qed.
+
+  Definition regs_nodup (regs : list (reg (F:=F))) : Prop :=
+    Forall (fun r => nodup_keys (c_ents (r_comp r)) = true) regs.
+
+  Lemma nth_regs_nodup : forall regs i,
+    regs_nodup regs -> nodup_keys (c_ents (r_comp (nth i regs (mkReg FVecDirect empty_comp)))) = true.
+  Proof.
+    intros regs i H. destruct (nth_in_or_default i regs (mkReg FVecDirect empty_comp)) as [Hin | E].
+    - unfold regs_nodup in H. rewrite Forall_forall in H. apply H. exact Hin.
+    - rewrite E. reflexivity.
+  Qed.
+
+  Lemma set_nth_Forall : forall {A} (P : A -> Prop) l i x, Forall P l -> P x -> Forall P (set_nth i x l).
+  Proof.
+    intros A P l. induction l as [|y t IH]; intros i x Hl Hx.
+    - destruct i; constructor.
+    - inversion Hl; subst. destruct i as [|i']; cbn [set_nth].
+      + constructor; assumption.
+      + constructor; [assumption | apply IH; assumption].
+  Qed.
+
+  Lemma step_nodup : forall regs ro, regs_nodup regs -> regs_nodup (fst (step N tbl shuffle regs ro)).
+  Proof.
+    intros regs [r o] H. unfold step.
+    set (a := nth r regs (mkReg FVecDirect empty_comp)).
+    set (b := match operand o with
+              | Some q => r_comp (nth q regs (mkReg FVecDirect empty_comp))
+              | None => empty_comp end).
+    assert (Ha : nodup_keys (c_ents (r_comp a)) = true) by (apply nth_regs_nodup; exact H).
+    assert (Hb : nodup_keys (c_ents b) = true).
+    { unfold b. destruct (operand o); [apply nth_regs_nodup; exact H | reflexivity]. }
+    pose proof (apply_nodup (r_fam a) o (r_comp a) b Ha Hb) as Hc.
+    match goal with |- context [apply N tbl shuffle (r_fam a) o (r_comp a) ?bb] =>
+      replace bb with b by (destruct o; reflexivity) end.
+    destruct (apply N tbl shuffle (r_fam a) o (r_comp a) b) as [c out].
+    cbn [fst] in Hc |- *. apply set_nth_Forall; [exact H|]. cbn [r_comp]. exact Hc.
+  Qed.
+
+  Lemma run_nodup : forall ops regs, regs_nodup regs -> regs_nodup (run_ops N tbl shuffle regs ops).
+  Proof.
+    intros ops. induction ops as [|ro t IH]; intros regs H.
+    - exact H.
+    - unfold run_ops in *. cbn [fold_left]. apply IH. apply step_nodup. exact H.
+  Qed.
+
+  Lemma reachable_nodup : forall f n ops r,
+    In r (run_ops N tbl shuffle (init_regs f n) ops) -> nodup_keys (c_ents (r_comp r)) = true.
+  Proof.
+    intros f n ops r Hin.
+    assert (H : regs_nodup (run_ops N tbl shuffle (init_regs f n) ops)).
+    { apply run_nodup. unfold regs_nodup, init_regs. apply Forall_forall.
+      intros x Hx. apply repeat_spec in Hx. subst x. reflexivity. }
+    unfold regs_nodup in H. rewrite Forall_forall in H. apply H. exact Hin.
+  Qed.
+End Machine.
+
+Lemma C04_example :
+  let H := (codes "H", 0%N) in let D := (codes "H", 2%N) in let O := (codes "O", 0%N) in
+  let a := e_collect [(H, 1%Z); (O, 1%Z); (H, 2%Z)] in
+  let b := e_collect [(D, 5%Z); (H, 1%Z)] in
+  nodup_keys a = true /\ nodup_keys b = true /\ e_get H a = 3%Z
+  /\ e_get H (e_sub a b) = 2%Z /\ e_get D (e_sub a b) = (-5)%Z /\ e_get O (e_mul (e_add a b) (-3)) = (-3)%Z.
+Proof. vm_compute. repeat split. Qed.
+
